@@ -117,6 +117,9 @@ EmitInv == (Emit /\ Checked) =>
     PrintT(<<"VEC", ToJson([sys |-> SysJson(sys), pert |-> PertJson(pert), prev |-> PertJson(prev), rescale |-> scale,
                             failing |-> {sys.procs[p] : p \in Failing(sys, pert)},
                             verdict |-> MassBalanceVerdict(sys, pert),
+                            \* with the explicit tolerance 0 every non-zero residual counts (the unit of the e-component is then
+                            \* half the DEFAULT tolerance, which an explicit 0 must not be replaced by)
+                            verdict_zero_tol |-> IF FailingStrict(sys, pert) = {} THEN "ok" ELSE "fail",
                             anynan |-> AnyNaN(sys, pert), nanbalance |-> HasNaNBalance(sys, pert),
                             maxmag |-> MaxMag(sys, pert),
                             flagged |-> {<<exc, {sys.fname[f] : f \in Flagged(sys, pert, exc)}>> : exc \in Exceptions(sys, pert)}])>>)
